@@ -451,6 +451,79 @@ def run_envelope(run, cfg, G):
                        "noparams: absent / null / {} parameters for GetInfo, a standard error, a derived field-less error and a unit-output reply; non-trivial = accepted / refused per kind; distinct = distinct case lines")
 
 
+# ------------------------------------------------------------------------------------ idl (C13, C14)
+
+def idl_nontrivial(inp, impl):
+    ks = []
+    if impl.startswith("ok"):
+        ks.append("accepted")
+    if impl == "error":
+        ks.append("rejected")
+    if " X I" in inp:
+        ks.append("legal-generated-text")
+    else:
+        ks.append("mutated-truncated-or-soup")
+    return ks
+
+
+def idl_known_key(line):
+    import re as _re
+    if line.startswith("idlrt-inline-witness"):
+        return "inline-enum-variant-comment"
+    if line.startswith("idlrt "):
+        t = line.split(" T ", 1)[1].split(" =>")[0]
+        if _re.search(r"V[0-9a-f]+\{[0-9a-f]", t):
+            return "commented-enum-variant"
+    return None
+
+
+def run_idl(run, cfg, G):
+    diff_run(run, G, ["idl"], "idl", idl_nontrivial, "idl", known_key=idl_known_key)
+    def search():
+        diff_run(run, G, ["idl"], "idl", idl_nontrivial, "idl-search", tier="thorough", seed_offset=1, record=False, known_key=idl_known_key)
+    finish_corr(run, G, [search])
+    run.cov["rule"] = ("interface descriptions from a grammar-driven generator (0..6 members, type depth 0..4, names over alphabets hitting every character class and boundary of the three name regexes, comments on "
+                       "interface / members / fields / parameters / variants) laid out with random legal inter-token whitespace (space, tab, LF, CRLF) and member interleavings; expected tree known by construction; "
+                       "plus truncation at every byte of every 4th (thorough: every) text <= 400 B, 4 mutations per text (delete / duplicate / replace / swap / slice copy / slice removal), token soup, and the witnesses of the "
+                       "repaired defects; Interface::try_from under catch_unwind; oracle: legal text => exactly the denoted tree; any accepted text => well-formed tree with the same non-comment tokens and all its comments in the text; never a panic; "
+                       "non-trivial = accepted or rejected observed; distinct = distinct case lines")
+
+
+def rt_nontrivial(inp, impl):
+    ks = ["rendered"]
+    if " P ok " in impl:
+        ks.append("parsed-back")
+    if " P error" in impl:
+        ks.append("rendering-rejected")
+    if "{" in inp and __import__("re").search(r"\{[0-9a-f]", inp):
+        ks.append("has-comments")
+    return ks
+
+
+def run_idlrt(run, cfg, G):
+    diff_run(run, G, ["idlrt"], "idlrt", rt_nontrivial, "idlrt", known_key=idl_known_key)
+    # the explicit inline-enum witness (constructor-built only)
+    lines = G["run_scenario"](run, ["idlrt"], extra=["--index", "999999999"]) or []
+    wl = [l for l in (G["run_scenario"](run, ["idlrt"]) or []) if l.startswith("idlrt-inline-witness")]
+    known = [k for k in G["load_known"]()["findings"] if k["property"] == run.pid]
+    for l in wl:
+        if l.endswith("=> ok"):
+            continue
+        hit = next((k for k in known if k["key"] == "inline-enum-variant-comment"), None)
+        if hit:
+            run.known.append(f"{hit['what']} [key={hit['key']}]")
+        else:
+            path = run.replay_path("idlrt-inline")
+            json.dump({"property": run.pid, "kind": "inline enum with a commented variant does not round-trip", "case_line": l}, open(path, "w"), indent=1)
+            run.violations.append(("impl", path, ""))
+    def search():
+        diff_run(run, G, ["idlrt"], "idlrt", rt_nontrivial, "idlrt-search", tier="thorough", seed_offset=1, record=False, known_key=idl_known_key)
+    finish_corr(run, G, [search])
+    run.cov["rule"] = ("descriptions built through the public constructors in both forms (new_owned and the borrowed const-style new; their Display output must agree) from the generator of C13 covering every type constructor, "
+                       "empty and non-empty member lists and comments at interface / member / field / parameter / variant level; Display text, Interface::try_from of that text and Display of the result are observed; "
+                       "the model renders and parses the same tree; oracle: parsed tree = original tree and re-rendering = text; non-trivial = rendered and parsed back; distinct = distinct case lines")
+
+
 RX_ASSUME = [
     "which bytes are a JSON document of the requested shape is serde_json/serde's business: the model takes `decode this frame` as an opaque per-frame function (theorems hold for every such function); the harness instantiates it with the verdict of a fresh connection receiving that frame alone and cross-checks call receivers against serde_json::from_slice",
     "the ReadHalf contract: a read future that is dropped while pending has consumed nothing",
@@ -507,6 +580,27 @@ PROPS = {
         "run": run_srv_scenarios(["srv-fair"]), "trusted_base": TB_COMMON,
         "assumptions": SRV_ASSUME + [
             "the no-double-service and bounded-bypass theorems are stated over sequences of consecutive scans of an unchanged set of n futures (Sel.winners); that the server's get_next_call is such a scan, and that the next start is winner+1, is proved for one iteration (C18_scan_is_select) and checked over whole runs by the correspondence of the global service order; the composition over full server runs is not a single theorem",
+        ],
+    },
+    "C13": {
+        "property_modules": ["Zlink.Properties.C13"], "lean_modules": ["Zlink.Properties.C13"],
+        "theorems": ["C13.C13_total", "C13.C13_type_names_exact", "C13.C13_field_names_exact"],
+        "run": run_idl, "trusted_base": TB_COMMON,
+        "assumptions": [
+            "winnow's alt / separated / literal / take_while / multispace0 and str::trim behave as ported in Zlink/Model/Idl.lean (validated by the correspondence run: identical trees / rejections on every explored text)",
+            "PARTIAL: proved so far are totality and the exactness (soundness + longest-match completeness) of the type-name and field-name lexers; the syntactic layer (every grammatical text parses to the denoted tree, nothing else is accepted) "
+            "is decided per explored text by the Lean oracle on the implementation's observation and by model = implementation, not yet by a theorem (C13_complete_statement is kept as the full statement)",
+            "leniencies deliberately not counted as violations: members without a line break between them; comments at places where the description has no slot (layout, as in the grammar's `_` production)",
+        ],
+    },
+    "C14": {
+        "property_modules": ["Zlink.Properties.C14"], "lean_modules": ["Zlink.Properties.C14"],
+        "theorems": ["C14.C14_comment_roundtrip", "C14.C14_commented_variant_counterexample"],
+        "run": run_idlrt, "trusted_base": TB_COMMON,
+        "assumptions": [
+            "core::fmt (write!/writeln!) concatenates as modelled in Zlink/Model/IdlRender.lean (validated: byte-identical text on every explored tree)",
+            "PARTIAL: proved are the comment round trip and the counterexample of the known finding; parse(render t) = t for whole descriptions is checked per explored tree (model and implementation both), C14_statement is kept as the full statement",
+            "the GetInterfaceDescription exchange end to end (serialize as string, deserialize, parse) is not yet part of this check",
         ],
     },
     "C17": {
